@@ -192,6 +192,7 @@ func (w *World) probeBalances(n *Node, extra []string) {
 	w.noteTainted(before, w.nstate(n.Idx)) // the truncation loop may have run since the last observation
 	callMark := len(w.AccCalls)
 	netMark := len(w.Net.Log)
+	quietBefore := w.Net.quiet()
 	truncMark := n.Log.TruncStarts
 	addrs := append([]string{}, w.WAddr...)
 	for _, nn := range w.Nodes {
@@ -264,7 +265,7 @@ func (w *World) probeBalances(n *Node, extra []string) {
 		}
 	}
 	after := w.snapshot(n)
-	undisturbed := callMark == len(w.AccCalls) && netMark == len(w.Net.Log) && w.Net.quiet() && len(before.Parked) == 0 && after != nil && len(after.Parked) == 0
+	undisturbed := callMark == len(w.AccCalls) && netMark == len(w.Net.Log) && quietBefore && w.Net.quiet() && len(before.Parked) == 0 && after != nil && len(after.Parked) == 0
 	if n.Log.TruncStarts != truncMark || n.Log.TruncStarts != n.Log.Truncs+len(n.Log.Fatals) {
 		undisturbed = false // the weight-triggered truncation loop ran (or is running) during the queries
 	}
